@@ -379,7 +379,7 @@ func c02GenCase(r *rand.Rand, id int, allowDelete bool) *c02Case {
 	c.Phases = append(c.Phases, ph)
 	kind := []string{"outage-points", "outage-create", "outage-edge-points", "up-only", "outage-mixed"}[r.Intn(5)]
 	if allowDelete && r.Intn(3) == 0 {
-		kind = []string{"outage-delete-down", "outage-delete-up"}[r.Intn(2)]
+		kind = []string{"outage-delete-down", "outage-delete-up", "outage-delete-both"}[r.Intn(3)]
 	}
 	if allowDelete && r.Intn(12) == 0 {
 		// the same point (same instant) written to two different nodes on opposite sides: the XOR of point
@@ -432,6 +432,20 @@ func c02GenCase(r *rand.Rand, id int, allowDelete bool) *c02Case {
 			case "outage-edge-points":
 				if o, ok := g.edgePoint(side); ok {
 					down.Ops = append(down.Ops, o)
+				}
+			case "outage-delete-both":
+				// the same node deleted independently on both sides, with an unsynchronised write on it first
+				if i == 0 {
+					us := g.usable("D")
+					if len(us) > 0 {
+						n := us[r.Intn(len(us))]
+						w := c02Op{[]string{"D", "U"}[r.Intn(2)], sOp{Kind: "np", Node: n, Points: []sPoint{{Type: "value", Time: g.tick(), VBits: math.Float64bits(float64(50 + r.Intn(50)))}}}}
+						down.Ops = append(down.Ops, w,
+							c02Op{"D", sOp{Kind: "ep", Node: n, Parent: g.par[n], Points: []sPoint{{Type: "tombstone", Time: g.tick(), VBits: math.Float64bits(1)}}}},
+							c02Op{"U", sOp{Kind: "ep", Node: n, Parent: g.par[n], Points: []sPoint{{Type: "tombstone", Time: g.tick(), VBits: math.Float64bits(1)}}}})
+					}
+				} else if r.Intn(2) == 0 {
+					down.Ops = append(down.Ops, g.points(side))
 				}
 			case "outage-delete-down":
 				if i == 0 {
